@@ -60,6 +60,8 @@ type Parser struct {
 	// function definition), which is what we almost always want.  We need this
 	// because Go's own ast package does a very poor job of handling comments.
 	endLineToCommentGroup map[fileLine]*ast.CommentGroup
+	// The lines on which there is code.
+	codeLines map[fileLine]bool
 }
 
 // key type for finding comments.
@@ -80,6 +82,7 @@ func NewWithOptions(opts Options) *Parser {
 		fullyProcessed:        map[string]bool{},
 		fset:                  token.NewFileSet(),
 		endLineToCommentGroup: map[fileLine]*ast.CommentGroup{},
+		codeLines:             map[fileLine]bool{},
 		buildTags:             opts.BuildTags,
 	}
 }
@@ -274,9 +277,13 @@ func (p *Parser) loadPackagesWithConfig(baseCfg *packages.Config, patterns ...st
 		p.goPkgs[pkg.PkgPath] = pkg
 
 		for _, f := range pkg.Syntax {
-			trailing := trailingComments(p.fset, f)
+			code := codeLines(p.fset, f)
+			filename := p.fset.Position(f.Package).Filename
+			for line := range code {
+				p.codeLines[fileLine{filename, line}] = true
+			}
 			for _, c := range f.Comments {
-				if trailing[c] {
+				if isTrailingComment(p.fset, code, c) {
 					continue
 				}
 				// We need to do this on _every_ pkg, not just user-requested
@@ -304,12 +311,10 @@ func (p *Parser) loadPackagesWithConfig(baseCfg *packages.Config, patterns ...st
 	return append(existingPkgs, pkgs...), nil
 }
 
-// trailingComments returns the comment groups of f which start on a line on
-// which there is code before them (e.g. "X int // comment" or "var ( // comment").
-// Such a comment belongs to that code: it is not a doc comment or a detached
-// comment of whatever follows it.
-func trailingComments(fset *token.FileSet, f *ast.File) map[*ast.CommentGroup]bool {
-	firstCode := map[int]token.Pos{} // line -> earliest position at which a node starts or ends on it
+// codeLines returns, for every line of f on which there is code, the earliest
+// position at which an AST node starts or ends on it.
+func codeLines(fset *token.FileSet, f *ast.File) map[int]token.Pos {
+	firstCode := map[int]token.Pos{}
 	mark := func(pos token.Pos) {
 		line := fset.Position(pos).Line
 		if cur, ok := firstCode[line]; !ok || pos < cur {
@@ -327,13 +332,16 @@ func trailingComments(fset *token.FileSet, f *ast.File) map[*ast.CommentGroup]bo
 		mark(n.End())
 		return true
 	})
-	out := map[*ast.CommentGroup]bool{}
-	for _, c := range f.Comments {
-		if pos, ok := firstCode[fset.Position(c.Pos()).Line]; ok && pos <= c.Pos() {
-			out[c] = true
-		}
-	}
-	return out
+	return firstCode
+}
+
+// isTrailingComment reports whether c starts on a line on which there is code
+// before it (e.g. "X int // comment" or "var ( // comment"). Such a comment
+// belongs to that code: it is not a doc comment or a detached comment of
+// whatever follows it.
+func isTrailingComment(fset *token.FileSet, code map[int]token.Pos, c *ast.CommentGroup) bool {
+	pos, ok := code[fset.Position(c.Pos()).Line]
+	return ok && pos <= c.Pos()
 }
 
 // alreadyLoaded figures out which of the specified patterns have already been loaded
@@ -576,13 +584,23 @@ func (p *Parser) priorDetachedComment(pos token.Pos) []string {
 	// Using a literal "2" here is brittle in theory (it means literally 2
 	// lines), but in practice Go code is gofmt'ed (which elides repeated blank
 	// lines), so it works.
+	from := pos
+	if c1 != nil {
+		from = c1.List[0].Slash
+	}
+	// A detached comment is separated by a blank line. If there is code on
+	// the line in between, the comment two lines up belongs to that code.
 	var c2 *ast.CommentGroup
-	if c1 == nil {
-		c2 = p.priorCommentLines(pos, 2)
-	} else {
-		c2 = p.priorCommentLines(c1.List[0].Slash, 2)
+	if !p.hasCode(from, 1) {
+		c2 = p.priorCommentLines(from, 2)
 	}
 	return splitLines(c2.Text()) // safe even if c1 is nil
+}
+
+// hasCode reports whether there is code on the line nlines before pos.
+func (p *Parser) hasCode(pos token.Pos, lines int) bool {
+	position := p.fset.Position(pos)
+	return p.codeLines[fileLine{position.Filename, position.Line - lines}]
 }
 
 // If there's a comment block which ends nlines before pos, return it.
